@@ -141,8 +141,8 @@ theorem afterSign_nonsep (s : List Nat) (neg : Bool) (b : Bytes) (h : afterSign 
           exact parseNumber_not_ok_on_sep H p b2 ng fv x c2 hid hsx hm r hpn
 
 /-- **`partial_prefix`, number results, formats with digit-separator flags** (release build): every
-input, under `SepCfg` -/
-theorem partial_prefix_sep_number_g (s : List Nat) (fv : Bool) (x : Number) (cnt : Nat)
+input, under `SepCfg` and the radix condition `ExpRadixOK` -/
+theorem partial_prefix_sep_number_g (hE : ExpRadixOK c) (s : List Nat) (fv : Bool) (x : Number) (cnt : Nat)
     (hm : c.requiredMantissaDigits = true)
     (h : parseFloatSyntax c o true s fv = .ok (.number x cnt)) :
     parseFloatSyntax c o false (s.take cnt) fv = .ok (.number x cnt) := by
@@ -159,7 +159,7 @@ theorem partial_prefix_sep_number_g (s : List Nat) (fv : Bool) (x : Number) (cnt
       simp only [Bool.false_eq_true, if_false] at h
       obtain ⟨hslc, hv, _⟩ := afterSign_ok c s neg false b ha
       have hpn := tail_partial_number o s fv neg b x cnt h
-      obtain ⟨p1, p2, p3⟩ := parseNumber_truncS H (zerosMirror_all H .integer (by decide))
+      obtain ⟨p1, p2, p3⟩ := parseNumber_truncS H hE (zerosMirror_all H .integer (by decide))
         (zerosMirror_all H .fraction (by decide)) true b neg fv x cnt hm hv hpn
       have hns := afterSign_nonsep H s neg b ha true neg fv _ hm hpn
       rw [afterSign_truncS H s neg b ha cnt p1 hns]
